@@ -108,7 +108,7 @@ def worker_main(spec):
             continue
         account(res, i)
         en = group.get("enumerate")
-        if en and not res["viol"] and res.get("verdict") == "returned":
+        if en and not res["viol"] and res.get("verdict") in ("returned", "ok"):
             # single-fault enumeration along the recorded schedule (same seed => identical prefix up to the fault)
             derived, npts = h.expand(res["plan"], res, random.Random(res["seed"]), en.get(spec["tier"]), en["kinds"])
             agg["stats"]["base_runs"] += 1
